@@ -101,7 +101,7 @@ def check_case(col, cfgname, t, only=None):
     nm = t["nm"]
     if len(fr) == len(t["lays"]):
         phis, reflist, names = build_case(t, True)
-        setups = []
+        setups, later = [], []
         for i, phi in enumerate(phis):
             ss = SingleSetup(np.zeros((4, phi.shape[0])), fs=10.0)
             alg = st[1](name="alg", p=1)
@@ -110,10 +110,17 @@ def check_case(col, cfgname, t, only=None):
             ss.mpe("alg")
             from pyoma2.algorithms.data.result import SSIResult
 
-            alg.result = SSIResult(Fn=np.array([fr[i] / 1000.0 * (k + 1) for k in range(nm)]),
-                                   Xi=np.array([fr[i] / 1e6 * (k + 1) for k in range(nm)]), Phi=phi.copy())
+            # history: an earlier extraction (other frequencies, other scales) is merged first; the judged merge follows a
+            # re-extraction on every setup - merge_results reads the setups' current results each time it is called
+            alg.result = SSIResult(Fn=np.array([2.5 * fr[i] / 1000.0 * (k + 1) for k in range(nm)]),
+                                   Xi=np.array([3.0 * fr[i] / 1e6 * (k + 1) for k in range(nm)]), Phi=phi * (3.0 if i == 0 else -2.0))
             setups.append(ss)
+            later.append((alg, SSIResult(Fn=np.array([fr[i] / 1000.0 * (k + 1) for k in range(nm)]),
+                                         Xi=np.array([fr[i] / 1e6 * (k + 1) for k in range(nm)]), Phi=phi.copy())))
         ms = MultiSetup_PoSER(ref_ind=[list(r) for r in reflist], single_setups=setups, names=["grp"])
+        ms.merge_results()
+        for alg, res_new in later:
+            alg.result = res_new
         merged = ms.merge_results()
         if not isinstance(merged, dict) or "grp" not in merged:
             col.violation("MultiSetup_PoSER.merge_results/no_result_for_group", f"merge_results returned {type(merged).__name__} "
